@@ -223,11 +223,14 @@ mod cli {
 
         // ---- config
         let mode = *rng.pick(&["with-loader-ts-5.0", "with-loader-ts-4.0", "standalone-ts-4.0"]);
-        let schema_out = *rng.pick(&["./generated/schema.d.ts", "./schema.d.ts", "./generated/deep/dir/schema.d.ts", "../out/types/schema.d.ts"]);
+        let runtime = has_enum && rng.chance(1, 4);     // emitSchemaRuntime: enums are also printed as `export const`
+        let schema_out = if runtime { *rng.pick(&["./generated/schema.ts", "../out/schema.ts"]) }
+                         else { *rng.pick(&["./generated/schema.d.ts", "./schema.d.ts", "./generated/deep/dir/schema.d.ts", "../out/types/schema.d.ts"]) };
         let mut config = String::new();
         config.push_str("schema: \"schema/**/*.graphql\"\ndocuments: \"ops/**/*.graphql\"\nextensions:\n  nitrogql:\n    generate:\n");
         config.push_str(&format!("      mode: {}\n      schemaOutput: {}\n", mode, schema_out));
         if rng.chance(1, 2) { config.push_str(&format!("      resolversOutput: {}\n", rng.pick(&["./generated/resolvers.d.ts", "../out/resolvers.d.ts", "./r.d.ts"]))); }
+        if runtime { config.push_str("      emitSchemaRuntime: true\n"); }
         if has_scalar { config.push_str("      type:\n        scalarTypes:\n          Date: string\n"); }
         Proj { schema_files, op_files, imported_used, has_astral, config, mode }
     }
@@ -235,7 +238,8 @@ mod cli {
     fn read(p: &Path) -> Option<String> { fs::read_to_string(p).ok() }
 
     /// definitions of a schema file: (identifier, header start, header end) for types, and for fields
-    fn schema_defs(text: &str) -> Vec<(String, Pos, Pos)> {
+    /// tag: 'T' type that is not an input object, 'I' input object, 'F' object field, 'J' input field
+    fn schema_defs(text: &str) -> Vec<(String, Pos, Pos, char)> {
         let mut out = vec![];
         let doc = match parse_type_system_document(text) { Ok(d) => d, Err(_) => return out };
         let end = |p: &Pos, name: &str| Pos { line: p.line, column: p.column + name.chars().count(), file: 0, builtin: false };
@@ -246,15 +250,15 @@ mod cli {
                         TDef::Scalar(x) => (x.position, x.name), TDef::Object(x) => (x.position, x.name), TDef::Interface(x) => (x.position, x.name),
                         TDef::Union(x) => (x.position, x.name), TDef::Enum(x) => (x.position, x.name), TDef::InputObject(x) => (x.position, x.name),
                     };
-                    out.push((name.name.to_string(), pos, end(&name.position, name.name)));
+                    out.push((name.name.to_string(), pos, end(&name.position, name.name), if matches!(td, TDef::InputObject(_)) { 'I' } else { 'T' }));
                     match td {
-                        TDef::Object(x) => for f in &x.fields { out.push((f.name.name.to_string(), f.name.position, end(&f.name.position, f.name.name))); },
+                        TDef::Object(x) => for f in &x.fields { out.push((f.name.name.to_string(), f.name.position, end(&f.name.position, f.name.name), 'F')); },
                         // an interface is printed as the union of its implementers: its own fields are not printed
-                        TDef::InputObject(x) => for f in &x.fields { out.push((f.name.name.to_string(), f.name.position, end(&f.name.position, f.name.name))); },
+                        TDef::InputObject(x) => for f in &x.fields { out.push((f.name.name.to_string(), f.name.position, end(&f.name.position, f.name.name), 'J')); },
                         _ => {}
                     }
                 }
-                TD::TypeExtension(TExt::Object(x)) => for f in &x.fields { out.push((f.name.name.to_string(), f.name.position, end(&f.name.position, f.name.name))); },
+                TD::TypeExtension(TExt::Object(x)) => for f in &x.fields { out.push((f.name.name.to_string(), f.name.position, end(&f.name.position, f.name.name), 'F')); },
                 _ => {}
             }
         }
@@ -290,8 +294,30 @@ mod cli {
         let _ = fs::remove_dir_all(work);
         fs::create_dir_all(work).unwrap();
         let work = fs::canonicalize(work).unwrap();
-        for k in 0..n {
-            let pj = gen_project(rng, k);
+        // two fixed projects first: the witnesses of the two known defects (DESIGN section 6, #11 and #18)
+        let corpus: Vec<Proj> = vec![
+            Proj {
+                schema_files: vec![("schema/schema.graphql".into(), "type Query {\n  me: User!\n}\n\ntype User {\n  id: ID!\n  name: String\n}\n".into())],
+                op_files: vec![("ops/main.graphql".into(), "#import F from \"./y.graphql\"\nquery Q {\n  me { ...F }\n}\n".into()),
+                               ("ops/y.graphql".into(), "fragment F on User {\n  id\n  name\n}\n".into())],
+                imported_used: [("ops/main.graphql".to_string(), vec![("F".to_string(), "ops/y.graphql".to_string())]), ("ops/y.graphql".to_string(), vec![])].into_iter().collect(),
+                has_astral: false,
+                config: "schema: \"schema/**/*.graphql\"\ndocuments: \"ops/**/*.graphql\"\nextensions:\n  nitrogql:\n    generate:\n      mode: with-loader-ts-5.0\n      schemaOutput: ./generated/schema.d.ts\n".into(),
+                mode: "with-loader-ts-5.0",
+            },
+            Proj {
+                schema_files: vec![("schema/schema.graphql".into(), "type Query {\n  \"😀 note\" name: String\n  plain: Int\n}\n".into())],
+                op_files: vec![("ops/q.graphql".into(), "query Q {\n  name\n  plain\n}\n".into())],
+                imported_used: [("ops/q.graphql".to_string(), vec![])].into_iter().collect(),
+                has_astral: true,
+                config: "schema: \"schema/**/*.graphql\"\ndocuments: \"ops/**/*.graphql\"\nextensions:\n  nitrogql:\n    generate:\n      mode: standalone-ts-4.0\n      schemaOutput: ./generated/schema.d.ts\n      resolversOutput: ./generated/resolvers.d.ts\n".into(),
+                mode: "standalone-ts-4.0",
+            },
+        ];
+        let ncorpus = corpus.len();
+        let mut corpus = corpus.into_iter();
+        for k in 0..(n + ncorpus) {
+            let pj = match corpus.next() { Some(p) => { bump!("cli_corpus_projects", 1); p } None => gen_project(rng, k) };
             let root = work.join(format!("p{}", k)).join("proj");
             for (p, t) in pj.schema_files.iter().chain(pj.op_files.iter()) {
                 let fp = root.join(p); fs::create_dir_all(fp.parent().unwrap()).unwrap(); fs::write(&fp, t).unwrap();
@@ -345,7 +371,9 @@ mod cli {
                 let mut defs: Vec<String> = vec![]; let mut ndefs = 0u64;
                 let mut hints: Vec<&str> = vec![];
                 match (okind, op) {
-                    ("schema", _) => for (p, t) in &sfiles { for (id, a, b) in schema_defs(t) { defs.push(coq_def(&id, &p.to_string_lossy(), &a, &b)); ndefs += 1; } },
+                    ("schema", _) => for (p, t) in &sfiles { for (id, a, b, _) in schema_defs(t) { defs.push(coq_def(&id, &p.to_string_lossy(), &a, &b)); ndefs += 1; } },
+                    // the resolvers file declares every non-input type and the fields of object types
+                    ("resolvers", _) => for (p, t) in &sfiles { for (id, a, b, tag) in schema_defs(t) { if tag == 'T' || tag == 'F' { defs.push(coq_def(&id, &p.to_string_lossy(), &a, &b)); ndefs += 1; } } },
                     ("operation", Some(fi)) => {
                         let (p, t, rel) = &ofiles[fi - sfiles.len()];
                         for (ids, _, a, b) in op_defs(t) { for id in ids { defs.push(coq_def(&id, &p.to_string_lossy(), &a, &b)); ndefs += 1; } }
@@ -560,17 +588,17 @@ fn run_writer(fmap: &Option<Vec<usize>>, ops: &[Wop]) -> Result<(String, String,
     }))
 }
 
-fn writer_case(fmap: &Option<Vec<usize>>, ops: &[Wop]) -> (String, Value) {
+fn writer_case(fmap: &Option<Vec<usize>>, ops: &[Wop], tol: bool) -> (String, Value) {
     let out = run_writer(fmap, ops);
     let o = out.as_ref().ok().cloned();
     let unmapped = ops.iter().any(|o| match (o, fmap) {
         (Wop::WF(_, p, _), Some(m)) => !p.builtin && p.file < m.len() && m[p.file] == usize::MAX,
         _ => false });
-    (format!("CWriter {} {} {}", coq_opt(fmap, |m| coq_list(m, |i| coq_n(*i as u64))), coq_list(ops, coq_wop),
+    (format!("CWriter {} {} {} {}", coq_bool(tol), coq_opt(fmap, |m| coq_list(m, |i| coq_n(*i as u64))), coq_list(ops, coq_wop),
              coq_opt(&o, |(b, m, n)| format!("({}, {}, {})", coq_str(b), coq_str(m), coq_list(n, |s| coq_str(s))))),
      json!({"kind":"writer","file_index_mapper": fmap.as_ref().map(|m| m.iter().map(|i| i.to_string()).collect::<Vec<_>>()),
             "ops": ops.iter().map(json_wop).collect::<Vec<_>>(),
-            "uses_unmapped_file_index": unmapped,
+            "uses_unmapped_file_index": unmapped && !tol, "lenient_twin": tol,
             "out": o.as_ref().map(|(b, m, n)| json!({"buffer": b, "source_map": m, "names": n})), "panic": out.err()}))
 }
 
@@ -694,9 +722,13 @@ fn main() {
     for i in 0..n_wr {
         let fmap = gen_fmap(&mut rng);
         let ops = gen_ops(&mut rng, &fmap, if i % 4 == 0 { 40 } else { 0 }, i % 5 == 0);
-        let (t, d) = writer_case(&fmap, &ops);
+        let (t, d) = writer_case(&fmap, &ops, false);
         if d["panic"].is_string() { bump("writer_panics", 1); } else { bump("writer_ok", 1); }
-        if d["uses_unmapped_file_index"] == json!(true) { bump("writer_uses_unmapped_file_index", 1); }
+        if d["uses_unmapped_file_index"] == json!(true) {
+            // strict case is expected to fail with the known defect; the lenient twin must hold
+            bump("writer_uses_unmapped_file_index", 1);
+            light.push(writer_case(&fmap, &ops, true));
+        }
         let nontrivial = ops.iter().any(|o| matches!(o, Wop::WF(_, p, _) if !p.builtin));
         if nontrivial && distinct.insert(t.clone()) { bump("writer_distinct_with_segments", 1); }
         bump("writer_ops", ops.len() as u64);
